@@ -92,3 +92,6 @@ add('FORREF',
 add('DEFAULT', Rule('X-DEFAULT', 'T::default()', 'default_of::<T>()'))
 
 # X-SIZEOF: std::mem::size_of::<T>() is supported by vstd directly (no rule).
+
+# X-ERR: error values are opaque (only Ok/Err matters to the contracts).
+add('ERR', Rule('X-ERR', 'Error::msg($a:a)', 'Error::msg_opaque()'))
